@@ -68,6 +68,12 @@ def _worker_init():
     boot.scratch_root()
     boot.purge_code_under_test()
     boot.import_code_under_test()
+    try:   # fsspec's process-wide I/O loop thread: created once, outside any simulated run
+        import fsspec.asyn
+
+        fsspec.asyn.get_loop()
+    except Exception:  # noqa: BLE001
+        pass
     gc.disable()   # finalisers run at the explicit collection between runs, not at random points
     _WORKER["ready"] = True
 
@@ -84,7 +90,7 @@ def execute_plan(mod, plan):
         # filesystem instance cache and no garbage of the previous run survives
         gc.collect()
         _world.restart()
-        out = mod.execute(plan)
+        out = run_enveloped(mod, plan)
     except BaseException as e:  # noqa: BLE001
         out = {"violations": [], "digest": None, "keys": [], "stats": {}, "faults": {},
                "steps": 0, "harness_error": "".join(traceback.format_exception(e))[-3000:]}
@@ -97,6 +103,23 @@ def execute_plan(mod, plan):
     out.setdefault("digest", SIM.digest())
     out["wall"] = time.time() - t0
     return out
+
+
+def run_enveloped(mod, plan):
+    """execute(plan) runs as the single primary actor of an envelope scheduler, so that any
+    thread the code under test starts on its own (a pool "optimisation", a background writer) is
+    adopted as an actor and interleaved by seeded choices instead of by the OS"""
+    from .sched import Sched
+
+    seed = int(hashlib.sha256(json.dumps(plan, sort_keys=True, default=repr).encode())
+               .hexdigest()[:16], 16)
+    env = Sched(rng=random.Random(seed), max_steps=10**12)
+    env.outer = True
+    env.spawn("main", lambda: mod.execute(plan))
+    env.run(wall_timeout=RUN_WALL_LIMIT - 10)
+    if "main" in env.err:
+        raise env.err["main"]
+    return env.res["main"]
 
 
 def run_indices(pid, tier, master, indices, want_plans=False):
